@@ -177,7 +177,9 @@ def observe(case):
             per[n]["ins"] += 1
     import shutil
     shutil.rmtree(d, ignore_errors=True)
-    return {"text": text, "per": per, "nwarn": len([w for w in warns if w["level"] in ("WARNING", "ERROR", "SEVERE")])}
+    from ..render import dup_nodes, parent_mismatches
+    return {"text": text, "per": per, "nwarn": len([w for w in warns if w["level"] in ("WARNING", "ERROR", "SEVERE")]),
+            "shared": dup_nodes(tree) + parent_mismatches(tree)}
 
 
 def _anc(n):
@@ -192,6 +194,15 @@ def judge(ctx, leg, doc, rawOn, fileOn, exp, o, tight=False, suppressed=False):
             "constructs": [k for k, _ in doc]}
     if "error" in o:
         ctx.violation(f"rendering raised {o['error']}", case)
+        return
+    # every refusal is reported on the warning stream as well, one line (at least) per refused construct; and the
+    # warning nodes put in place of refused content are nodes of their own
+    nref = sum(1 for e in exp if e["warn"] > 0)
+    if not suppressed and o["nwarn"] < nref:
+        ctx.violation(f"{nref} construct(s) refused (raw_enabled={rawOn}, file_insertion_enabled={fileOn}) but only {o['nwarn']} warning(s) on the stream", case)
+        return
+    if o.get("shared"):
+        ctx.violation(f"the resulting doctree holds a node object in more than one place / with a wrong parent ({o['shared']} occurrence(s))", case)
         return
     if tight:
         # adjacent constructs: raw nodes cannot be attributed, the clauses are checked on the whole document
